@@ -198,6 +198,7 @@ type frameSpec struct {
 	wholeKeys map[string]bool
 	locs      map[string][]T // field key -> refs exempt
 	elemArrs  map[string][]T // elem key -> backing arrays exempt
+	prefixes  []string       // prefix("H_ltx_"): every key with that prefix is exempt
 }
 
 func (e *Engine) frameSpecOf(fr *Frame, ct *Contract) *frameSpec {
@@ -266,6 +267,11 @@ func (e *Engine) frameSpecOf(fr *Frame, ct *Contract) *frameSpec {
 					fs.wholeKeys[lit.V] = true
 				}
 				continue
+			case "prefix":
+				if lit, ok := n.Args[0].(*EStr); ok {
+					fs.prefixes = append(fs.prefixes, lit.V)
+				}
+				continue
 			case "deref":
 				continue
 			}
@@ -279,6 +285,11 @@ func (e *Engine) frameSpecOf(fr *Frame, ct *Contract) *frameSpec {
 func (fs *frameSpec) frameGoal(vc *VC, k string, entry, cur, al0 T) (T, bool) {
 	if fs.heapAll || fs.wholeKeys[k] || k == "$alloc" || strings.HasPrefix(k, "$v") || k == "Elem_any" || cur.S == entry.S {
 		return tTrue, false
+	}
+	for _, p := range fs.prefixes {
+		if strings.HasPrefix(k, p) {
+			return tTrue, false
+		}
 	}
 	switch {
 	case strings.HasPrefix(k, "H_") || strings.HasPrefix(k, "Mem_"):
